@@ -186,6 +186,7 @@ func (nullProc) PingResponse() error                      { return nil }
 func (er *elRun) run() {
 	s := er.s
 	w := simrt.NewWorld(s.Seed, synctest.Wait)
+	w.StrictLocks = os.Getenv("VERIF_LOOSE_LOCKS") == ""
 	defer w.Close()
 	er.w = w
 	w.KeysPerm = s.Cfg["perm"] != 0
